@@ -211,9 +211,13 @@ impl<NonceSize: Unsigned, Rounds, IsX> StreamCipherSeek for ChaChaAny<NonceSize,
     }
     #[inline(always)]
     fn try_seek<T: SeekNum>(&mut self, pos: T) -> Result<(), LoopError> {
-        pos.try_into()
-            .map_err(|_| LoopError)
-            .map(|ct| Self::seek(self, ct))
+        let ct: u64 = pos.try_into().map_err(|_| LoopError)?;
+        // the 32-bit-counter variant ends after 2^32 blocks
+        if NonceSize::U32 == 12 && ct > SMALL_LEN * BLOCK64 {
+            return Err(LoopError);
+        }
+        Self::seek(self, ct);
+        Ok(())
     }
 }
 
